@@ -108,14 +108,19 @@ zix_file_equals(ZixAllocator* const allocator,
     void* const    page_a = zix_aligned_alloc(allocator, size, size);
     void* const    page_b = zix_aligned_alloc(allocator, size, size);
 
-    if (page_a && page_b) {
-      match = true;
-      for (ZixSystemCountReturn n = 0; (n = read(fd_a, page_a, size)) > 0;) {
-        if (read(fd_b, page_b, size) != n ||
-            !!memcmp(page_a, page_b, (size_t)n)) {
-          match = false;
-          break;
-        }
+    // Fall back to small stack buffers if allocation is unavailable
+    char         stack_a[512];
+    char         stack_b[512];
+    const bool   paged  = page_a && page_b;
+    void* const  buf_a  = paged ? page_a : stack_a;
+    void* const  buf_b  = paged ? page_b : stack_b;
+    const size_t buf_sz = paged ? size : sizeof(stack_a);
+
+    match = true;
+    for (ZixSystemCountReturn n = 0; (n = read(fd_a, buf_a, buf_sz)) > 0;) {
+      if (read(fd_b, buf_b, buf_sz) != n || !!memcmp(buf_a, buf_b, (size_t)n)) {
+        match = false;
+        break;
       }
     }
 
